@@ -15,7 +15,11 @@ def histories(ctx, n_hist: int, text_heavy: bool):
         n_ops = ctx.rng.choice([4, 8, 15, 30] if ctx.quick else [8, 15, 30, 60])
         n_tok = ctx.rng.choice([6, 12, 8 * lf, 14 * lf])
         n_tok = min(n_tok, 90)
-        texts, ops = sd.gen_history(ctx.rng, lf, n_ops, n_tok)
+        if k % 3 == 2:
+            texts, ops = sd.gen_directed(ctx.rng, lf)
+            n_tok = len(texts)
+        else:
+            texts, ops = sd.gen_history(ctx.rng, lf, n_ops, n_tok)
         if text_heavy:
             # more text updates, on live tokens, with and without line breaks
             extra = []
